@@ -56,8 +56,8 @@ def run(m, chk):
         "control points and weights of both operands (DEP-MUST field coverage), every refined copy is read (no dead refinement), operands are not modified, "
         "__ne__ is the negation of __eq__, the non-curve ⇒ False guard comes first. The 1e-9 semantics and invariance under elevation are not decided."
     )
-    chk.decides = ["DEP-MUST field coverage", "DEAD-REFINEMENT", "PURE", "__ne__ = not __eq__", "type guard first", 'REFINE-BOTH (comparison only after refinement or for equal knot vectors)']
-    chk.not_decided = ["tolerance semantics", "invariance of the answer under knot insertion / degree elevation as values"]
+    chk.decides = ["DEP-MUST field coverage", "DEAD-REFINEMENT", "PURE", "__ne__ = not __eq__", "type guard first", 'REFINE-BOTH (comparison only after refinement or for equal knot vectors)', 'TOL-HOMOG (the quantity compared with the tolerance literal is a distance: degree 1 in the point difference, or the literal is the matching power of 1e-9)']
+    chk.not_decided = ["which norm the tolerance applies to", "invariance of the answer under knot insertion / degree elevation as values"]
     ctx = r.root(EQ)
     fi = ctx.fi
     other = fi.params[1]
@@ -92,6 +92,10 @@ def run(m, chk):
     from .extra import refine_both
 
     refine_both(r, chk, EQ)
+    from .common import CURVE_FIELDS
+    from .homog import tol_homog
+
+    tol_homog(r, chk, EQ, (CURVE_FIELDS[1],), 1e-9)
     # 3. purity, negation, first guard
     r.pure("PURE", EQ, ["self", other])
     r.pure("PURE", NE, list(r.root(NE).fi.params))
